@@ -30,6 +30,8 @@ type loopRT struct {
 	headSt  *State
 	invs    []Clause
 	steps   []Clause
+	exits   []Clause
+	exitGoals map[int][]Term // per exit clause: (edge condition => clause) for every edge that leaves the loop
 	decr    *Clause
 	decrHead Term
 	props   []string
@@ -72,6 +74,7 @@ func (f *Frame) loopHeader(li *loopInfo) {
 			rt.invs = ls.Invariants
 			rt.decr = ls.Decreases
 			rt.steps = ls.Steps
+			rt.exits = ls.Exits
 		}
 		rt.props = e.contract.Props
 	}
@@ -312,6 +315,71 @@ func (f *Frame) backEdge(from, to *ssa.BasicBlock, cond Term) {
 			lc.c.PresObl = append(lc.c.PresObl, o)
 		} else {
 			lc.c.Dropped = true
+		}
+	}
+}
+
+// exitEdge: `exit` clauses of every loop that the edge from -> to leaves. Loop-carried variables (and $n) have the
+// values of the iteration that is being left (for the normal exit of a range loop $n == len); locals visible in the
+// source block are in scope; itercalled()/ret() refer to the calls of that iteration.
+func (f *Frame) exitEdge(from, to *ssa.BasicBlock, cond Term) {
+	e := f.e
+	if f.parent != nil || e.contract == nil {
+		return
+	}
+	for h, li := range f.loops {
+		if !li.body[from.Index] || li.body[to.Index] {
+			continue
+		}
+		rt := f.loopRT(h)
+		if rt == nil || len(rt.exits) == 0 {
+			continue
+		}
+		top := shortFuncName(f.topFrame().fn)
+		for i, ex := range rt.exits {
+			env := f.loopEnv(li, rt.headPh, f.st)
+			for name, v := range f.localsDominating(from) {
+				f.bindLocal(env, name, v, f.st, true)
+			}
+			for name, v := range f.localsIn(from) {
+				f.bindLocal(env, name, v, f.st, true)
+			}
+			t, err := env.evalBool(ex.Expr)
+			if err != nil {
+				e.specError(fmt.Sprintf("%s loop %d exit %q: %v", top, li.ordinal, ex.Text, err))
+				continue
+			}
+			if rt.exitGoals == nil {
+				rt.exitGoals = map[int][]Term{}
+			}
+			rt.exitGoals[i] = append(rt.exitGoals[i], implies(cond, t))
+		}
+	}
+}
+
+// exitObligations: one obligation per `exit` clause (conjunction over all edges that leave the loop, so that the
+// obligation's name does not depend on block numbering); a clause whose loop has no exit edge is a stale contract.
+func (f *Frame) exitObligations() {
+	e := f.e
+	top := shortFuncName(f.fn)
+	var hs []int
+	for h := range f.loops {
+		hs = append(hs, h)
+	}
+	sort.Ints(hs)
+	for _, h := range hs {
+		rt := f.loopRT(h)
+		if rt == nil {
+			continue
+		}
+		for i, ex := range rt.exits {
+			gs := rt.exitGoals[i]
+			if len(gs) == 0 {
+				e.specError(fmt.Sprintf("%s loop %d exit %q: the loop has no reachable exit edge", top, rt.li.ordinal, ex.Text))
+				continue
+			}
+			o := e.addObl("loop-exit", fmt.Sprintf("%s#loop-exit:loop%d:%s", top, rt.li.ordinal, clauseLabel(ex, i)), tTrue, and(gs...), rt.props)
+			o.Text = ex.Text
 		}
 	}
 }
@@ -920,6 +988,9 @@ func (f *Frame) renamedLoopVar(li *loopInfo, phis map[*ssa.Phi]Value) *ssa.Phi {
 		collect(c)
 	}
 	for _, c := range ls.Steps {
+		collect(c)
+	}
+	for _, c := range ls.Exits {
 		collect(c)
 	}
 	if ls.Decreases != nil {
